@@ -27,7 +27,7 @@ import struct
 
 
 class T:
-    __slots__ = ("k", "a", "ty", "_key", "_hash")
+    __slots__ = ("k", "a", "ty", "_key", "_hash", "_show")
 
     def __init__(self, k, *a, ty=None):
         self.k = k
@@ -35,6 +35,7 @@ class T:
         self.ty = ty
         self._key = None
         self._hash = None
+        self._show = None
 
     def key(self):
         if self._key is None:
@@ -98,6 +99,16 @@ def show(t, depth=0):
         return repr(t)
     if depth > 40:
         return "…"
+    if depth == 0:
+        if t._show is None:
+            t._show = _show(t, 0)
+        return t._show
+    if t._show is not None and depth < 20:
+        return t._show
+    return _show(t, depth)
+
+
+def _show(t, depth):
     k = t.k
     d = depth + 1
     if k == "const":
